@@ -48,6 +48,10 @@ def build_cases(r, tier, count, maxn, small_exhaustive):
     return cases, meta
 
 def run_exact(binary, cases, meta, timeout=3600):
-    text = "".join(render_graph(cid, "exact", meta[cid][1], c[2] if meta[cid][1] == "d" else 0, [meta[cid][0]], c[0], c[1])
-                   for cid, c in cases.items())
+    # every third run places the edge nodes at addresses out of insertion order (the signed searches iterate
+    # std::set<edge_descriptor>, i.e. in address order)
+    import zlib
+    def extra(i, cid): return ["0", "heap=%d" % (1 + (zlib.crc32(cid.encode()) & 0xfffffff))] if i % 3 == 1 else []
+    text = "".join(render_graph(cid, "exact", meta[cid][1], c[2] if meta[cid][1] == "d" else 0, [meta[cid][0]] + extra(i, cid), c[0], c[1])
+                   for i, (cid, c) in enumerate(cases.items()))
     return run_harness(binary, text, timeout=timeout)
